@@ -303,14 +303,37 @@ func c05OnlyEmptySkipped(c *core.Ctx) {
 							return false
 						}
 						bn, ok := cl.Call.Value.(*ssa.Builtin)
-						return ok && bn.Name() == "len" && cl.Call.Args[0] == line
+						if !ok || bn.Name() != "len" {
+							return false
+						}
+						a := cl.Call.Args[0]
+						if a == line {
+							return true
+						}
+						// loop-header form `for len(b) == 0 { b, err = read() }`: b is a phi of the raw line and its initial (nil) value
+						if phi, ok := a.(*ssa.Phi); ok {
+							for _, e := range phi.Edges {
+								if e != line && !core.IsNilConst(e) {
+									return false
+								}
+							}
+							return true
+						}
+						return false
 					}
 					isZero := func(v ssa.Value) bool {
 						cst, ok := v.(*ssa.Const)
 						return ok && cst.Value != nil && cst.Value.ExactString() == "0"
 					}
+					isOne := func(v ssa.Value) bool {
+						cst, ok := v.(*ssa.Const)
+						return ok && cst.Value != nil && cst.Value.ExactString() == "1"
+					}
 					if (isLen(bo.X) && isZero(bo.Y)) || (isLen(bo.Y) && isZero(bo.X)) {
 						okShape = true
+					}
+					if (bo.Op == token.LSS || bo.Op == token.GEQ) && isLen(bo.X) && isOne(bo.Y) {
+						okShape = true // len(line) < 1 / >= 1
 					}
 				}
 				if !okShape {
